@@ -2,7 +2,7 @@
 import re
 import z3
 from .values import *
-from .sstr import SStr, Sym
+from .sstr import SStr
 from .interp import Inconclusive, INT_BITS, int_range, wrap_int, Program
 
 
